@@ -1605,11 +1605,12 @@ class Module(ABC):
         ], "Number of comps and stimuli do not match."
 
         if key in self.base.externals.keys():
+            in_view = self._nodes_in_view if key in comp_states else self._edges_in_view
             self.base.externals[key] = jnp.concatenate(
                 [self.base.externals[key], values]
             )
             self.base.external_inds[key] = jnp.concatenate(
-                [self.base.external_inds[key], self._nodes_in_view]
+                [self.base.external_inds[key], in_view]
             )
         else:
             if key in comp_states:
